@@ -308,8 +308,10 @@ def tlc_trace(ctx, module, cfg, trace_path, trace_name="trace.ndjson", timeout=1
             hw = int(m.group(1))
     if r["error"]:
         raise Undecided("trace validation %s/%s: TLC error %s\n%s" % (module, cfg, r["error"], r["out"][-4000:]))
-    accepted = r["ok"] and (hw is None or hw >= n)
-    r.update({"accepted": accepted, "hw": hw, "n": n})
+    # trace specs that record every failed condition print <<"@@BAD", line, "name">> from their postcondition
+    bads = sorted({(int(m.group(1)), m.group(2)) for m in re.finditer(r'<<"@@BAD", (\d+), "([^"]+)">>', r["out"])})
+    accepted = r["ok"] and (hw is None or hw >= n) and not bads
+    r.update({"accepted": accepted, "hw": hw, "n": n, "bads": bads})
     return r
 
 
@@ -418,11 +420,29 @@ def trace_check(ctx, module, cfg, trace_path, what, key_fn=None, selftest=None, 
     r = tlc_trace(ctx, module, cfg, trace_path, **kw)
     rows = read_nd(trace_path)
     ctx.add("trace_events", r["n"])
-    if not r["accepted"]:
+    if r["bads"] and (r["hw"] is None or r["hw"] >= r["n"]):
+        # whole trace consumed; every failed condition is a violation at its own line
+        for line, name in r["bads"]:
+            bad = rows[line - 1] if 0 < line <= len(rows) else {}
+            key = key_fn(bad, name) if key_fn else "%s:%s" % (bad.get("ev", "?"), name)
+            lo = line - 1
+            while lo > 0 and rows[lo].get("ev") != "reset":
+                lo -= 1
+            keep = os.path.join(ROOT, "replays", ctx.pid)
+            os.makedirs(keep, exist_ok=True)
+            dst = os.path.join(keep, "%s-trace-%s.ndjson" % (ctx.tier, hashlib.sha1(key.encode()).hexdigest()[:8]))
+            if not os.path.exists(dst) or os.path.getmtime(dst) < ctx.t0:
+                write_nd(dst, rows[lo:line])
+            ctx.violation(key, "%s: condition %s of %s is false on the real trace at line %d" % (what, name, module, line),
+                          {"trace": dst, "line": line, "event": bad, "condition": name, "context": rows[max(0, line - 12):line]})
+    elif not r["accepted"]:
         hw = r["hw"] if r["hw"] is not None else 0
         bad = rows[hw] if hw < len(rows) else {}
         inv = r.get("violated")
-        key = (key_fn(bad, inv) if key_fn else "%s:%s" % (bad.get("ev", "?"), inv or "rejected"))
+        if key_fn and key_fn.__code__.co_argcount >= 3:
+            key = key_fn(bad, inv, r["out"])     # the TLC output carries the violating state (e.g. a `bad` variable)
+        else:
+            key = (key_fn(bad, inv) if key_fn else "%s:%s" % (bad.get("ev", "?"), inv or "rejected"))
         art = {"trace": trace_path, "line": hw + 1, "event": bad, "invariant": inv,
                "context": rows[max(0, hw - 15):hw + 1], "tlc_tail": r["out"][-1500:]}
         keep = os.path.join(ROOT, "replays", ctx.pid)
